@@ -2219,3 +2219,164 @@ FAMILIES += [
                              'destination-ahead-by-a-block']},
            case_timeout=120, timeout_is_violation=True),
 ]
+
+
+# --------------------------------------------------------------- editor ---
+#
+# A server session with a pty runs asyncssh's line editor on what the
+# client types: every keystroke is handled inside data_received and may
+# redraw the input line.  The line is bounded (max_line_length, default
+# 1024), so the echo one keystroke can cause is bounded as well: output
+# proportional to input, whatever the keys.
+
+EDIT_KEYS = {'^A': b'\x01', '^E': b'\x05', '^B': b'\x02', '^F': b'\x06',
+             '^K': b'\x0b', '^U': b'\x15', '^Y': b'\x19', '^R': b'\x12',
+             '^D': b'\x04', 'BS': b'\x7f', 'DEL': b'\x1b[3~',
+             'UP': b'\x1b[A', 'DOWN': b'\x1b[B', 'LEFT': b'\x1b[D',
+             'RIGHT': b'\x1b[C', 'HOME': b'\x1b[H', 'END': b'\x1b[F',
+             'CR': b'\r', 'ESC': b'\x1b', 'CSI?': b'\x1b[9', 'NUL': b'\x00',
+             'wide': '世'.encode(), 'tab': b'\t'}
+MAX_LINE = 1024
+
+
+def editor_bytes(prog) -> bytes:
+    out = []
+
+    for item in prog:
+        if item[0] == 'resize':
+            continue
+        if item[0] == 'text':
+            out.append(b'x' * item[1])
+        elif item[0] == 'rep':
+            out.append(b''.join(EDIT_KEYS[k] for k in item[1]) * item[2])
+        else:
+            out.append(EDIT_KEYS[item[0]])
+
+    return b''.join(out)
+
+
+def run_editor(case) -> CaseResult:
+    from ..engines.memwire import Pair
+
+    store: Dict[Any, List[Any]] = {}
+    lines: List[Any] = []
+
+    async def handler(process):
+        try:
+            process.stdout.write(case.get('prompt', '> '))
+            async for line in process.stdin:
+                lines.append(len(line))
+                process.stdout.write(case.get('prompt', '> '))
+        except (asyncssh.Error, OSError):
+            pass
+
+    pair = Pair({'process_factory': handler}, {})
+    h = pair.h
+    data = editor_bytes(case['prog'])
+    labels = {'term:' + case['term'], 'width:%d' % case['width']}
+
+    try:
+        pair.handshake()
+        chan, _ = h.run(pair.c.create_session(
+            lambda: LogClientSession(store, 'c'), term_type=case['term'],
+            term_size=(case['width'], 24), encoding=None))
+        h.pump()
+        events = store['c']
+        base = sum(len(e[2]) for e in events if e[0] == 'data')
+        t0 = time.process_time()
+        step = case['chunk'] or len(data) or 1
+
+        if any(item[0] == 'resize' for item in case['prog']):
+            # the window changes size between the keystrokes
+            labels.add('resize')
+
+            for item in case['prog']:
+                if chan.is_closing():
+                    break
+                if item[0] == 'resize':
+                    h.call(chan.change_terminal_size, item[1], 24)
+                else:
+                    h.call(chan.write, editor_bytes([item]))
+                h.pump()
+        else:
+            for i in range(0, len(data), step):
+                if chan.is_closing():
+                    break
+                h.call(chan.write, data[i:i + step])
+                h.pump()
+
+        spent = time.process_time() - t0
+        echoed = sum(len(e[2]) for e in events if e[0] == 'data') - base
+        bound = 4096 + len(data) * 2 * (MAX_LINE + 32)
+
+        if any(item[0] == 'rep' and item[2] >= 100 for item in case['prog']):
+            labels.add('long-repetition')
+
+        if echoed > bound:
+            raise Violation(
+                'work-bound', '%d bytes of keystrokes (%s ...) made the line '
+                'editor write %d bytes (%.0f per input byte; a line is at '
+                'most %d characters: bound %d) in %.1f s of CPU' %
+                (len(data), case['prog'][:6], echoed,
+                 echoed / max(len(data), 1), MAX_LINE, bound, spent),
+                'editor:echo-not-proportional')
+
+        if lines and max(lines) > MAX_LINE + 2:
+            raise Violation('work-bound', 'the application was handed a line '
+                            'of %d characters, max_line_length is %d' %
+                            (max(lines), MAX_LINE), 'editor:line-too-long')
+
+        if pair.h.loop_errors:
+            raise Violation('loop-error', repr(pair.h.loop_errors[0])[:300],
+                            'loop-error')
+
+        lost = [e for e in events if e[0] == 'lost']
+
+        if lost and lost[0][1] not in (None, 'ConnectionLost',
+                                       'DisconnectError'):
+            raise Violation('undocumented-exception', 'keystrokes ended the '
+                            'connection with %s' % lost[0][1],
+                            'editor:connection-lost:' + str(lost[0][1]))
+
+        labels.add('ratio>=100' if echoed >= 100 * len(data) and data
+                   else 'ratio<100')
+        return CaseResult(sorted(labels), True)
+    finally:
+        pair.close()
+
+
+def editor_strategy(tier: str):
+    key = pick(sorted(EDIT_KEYS))
+    kmax = 200 if tier == 'quick' else 400
+    item = st.one_of(
+        st.tuples(st.just('text'), pick([1, 5, 79, 80, 81, 500, 1023, 1024,
+                                         1025, 3000])).map(list),
+        key.map(lambda k: [k]),
+        key.map(lambda k: [k]),
+        st.tuples(st.just('resize'), pick([0, 1, 2, 3, 5, 80, 300])).map(list),
+        st.tuples(st.just('rep'), st.lists(key, min_size=1, max_size=3),
+                  pick([2, 10, 50, kmax])).map(list))
+    # fill the line, cut it, and paste it back again and again, at the
+    # start / in the middle / at the end
+    paste = st.tuples(
+        pick([1000, 1023, 1024]), pick(['^U', '^K']),
+        st.lists(pick(['^A', '^E', '^B', 'LEFT', 'HOME']), max_size=2),
+        pick([100, kmax])).map(
+            lambda t: [['text', t[0]], ['^A'] if t[1] == '^K' else ['^E'],
+                       [t[1]], ['^Y'], ['rep', t[2] + ['^Y'], t[3]]])
+    return st.fixed_dictionaries({
+        'prog': st.one_of(st.lists(item, min_size=1, max_size=10),
+                          st.lists(item, min_size=1, max_size=10), paste),
+        'term': pick(['ansi', 'xterm', 'dumb', 'vt100']),
+        'prompt': pick(['> ', '', 'prompt> ', 'p' * 100 + '> ', 'a\nb> ']),
+        'width': pick([80, 80, 1, 2, 3, 10, 200, 65535]),
+        'chunk': pick([0, 0, 1, 7, 1000])})
+
+
+FAMILIES += [
+    Family('editor', run_editor, strategy=editor_strategy,
+           budget={'quick': 300, 'thorough': 5000},
+           required={'all': ['long-repetition', 'term:ansi', 'term:dumb',
+                             'width:1', 'ratio>=100', 'resize']},
+           case_timeout=300, timeout_is_violation=True),
+]
